@@ -27,7 +27,7 @@ def patterns_for(tree, boxroot):
     pats += fn
     pats += ["a*.cmake", "*.cmake", "**/" + (dn[0] if dn else "zz") + "/"]
     # patterns with an inner slash (anchored in gitignore terms), written relative to the input directory
-    for i in range(1, len(tree.parents)):
+    for i in sorted(i for i in {1, len(tree.parents) - 1} if 0 < i < len(tree.parents)):
         pats += [tree.rel(i) + "/*.cmake", tree.names[i] + "/a.cmake"]
     pats = list(dict.fromkeys(pats))
     for i in range(len(tree.parents)):
